@@ -1572,7 +1572,12 @@ def install_default_handlers(ex: Executor):
     H["__vp_lcd_cursor"] = lambda ex, st, a, ins: st.events.append(("lcd_cursor", objname(ex, a[0]), a[1], a[2]))
 
     def h_put(ex, st, a, ins):
-        st.events.append(("lcd_put", objname(ex, a[0]), a[1], a[2], piece_of_cell(st, a[3])))
+        # positions are concretised (fork over feasible values): cell matrices stay concrete-indexed
+        row = ex.concretize(st, a[1])
+        col = ex.concretize(st, a[2])
+        row = row - (1 << 32) if row >> 31 else row
+        col = col - (1 << 32) if col >> 31 else col
+        st.events.append(("lcd_put", objname(ex, a[0]), row, col, piece_of_cell(st, a[3])))
     H["__vp_lcd_put"] = h_put
     H["__vp_lcd_display"] = lambda ex, st, a, ins: st.events.append(("lcd_display", objname(ex, a[0]), a[1]))
     H["__vp_lcd_backlight"] = lambda ex, st, a, ins: st.events.append(("lcd_backlight", objname(ex, a[0]), a[1]))
